@@ -626,6 +626,15 @@ let do_listen id ins outs =
     else verdict "listen" id "spec:C16" tag (Printf.sprintf "returned=%s after %sms errclass=%s rebind=%s" returned ms cls rebind)
   | _ -> verdict "listen" id "diff" "malformed-line" ""
 
+(* ---- engine reply, mode storm ----  storm <id> <K> <events> => <maxDuring> <barrier> *)
+let do_storm id ins outs =
+  match ins, outs with
+  | [k; evs], [md; ba] ->
+    let tag = "k" ^ k ^ (if (try ignore (Str.search_forward (Str.regexp_string "panic") evs 0); true with Not_found -> false) then "/panic" else "") in
+    if c04_ok (z_of_int (int_of_string k)) (z_of_int (int_of_string md)) (z_of_int (int_of_string ba)) then verdict "storm" id "ok" tag ""
+    else verdict "storm" id "spec:C04" tag (Printf.sprintf "capacity=%s max inside resolver during storm=%s, inside together afterwards=%s (events %s)" k md ba evs)
+  | _ -> verdict "storm" id "diff" "malformed-line" ""
+
 let () =
   try
     while true do
@@ -640,6 +649,7 @@ let () =
       | "clist" :: id :: rest -> let (i, o) = split_arrow rest in do_clist id i o
       | "rhist" :: id :: rest -> let (i, o) = split_arrow rest in do_rhist id i o
       | "fault" :: id :: rest -> let (i, o) = split_arrow rest in do_fault id i o
+      | "storm" :: id :: rest -> let (i, o) = split_arrow rest in do_storm id i o
       | "listen" :: id :: rest -> let (i, o) = split_arrow rest in do_listen id i o
       | "mgr" :: id :: rest -> let (i, o) = split_arrow rest in do_mgr id i o
       | "ttl" :: id :: rest -> let (i, o) = split_arrow rest in do_ttl id i o
